@@ -11,6 +11,7 @@ import random
 import xml.dom.minidom
 
 from harness import clientfix, ref_message as RM
+from harness.ref_codec import Variant as RV
 from txdbus import interface as I
 from txdbus import objects as O
 
@@ -77,15 +78,18 @@ class World:
         self.peer = clientfix.Peer().ready()
         self.conn = self.peer.proto
         self.exported = {}        # path -> kind 'A' | 'AB'
+        self.objs = {}            # path -> the exported object
+        self.names = {}           # path -> current value of Name if it was changed after export
+        self.counts = {}          # path -> current value of Count if it was Set after export
         self.serial = 100
         self.peer.take()
 
-    def call(self, path, member, interface=None):
+    def call(self, path, member, interface=None, sig='', body=()):
         self.serial += 1
         fields = {'path': path, 'member': member, 'sender': ':1.50'}
         if interface:
             fields['interface'] = interface
-        self.peer.send(RM.build(RM.METHOD_CALL, self.serial, fields))
+        self.peer.send(RM.build(RM.METHOD_CALL, self.serial, fields, sig, list(body)))
         msgs = self.peer.take()
         return self.serial, msgs
 
@@ -188,9 +192,9 @@ def check_state(ctx, w_, hist, case):
                                path, sorted(got), sorted(want)), base, case)
                 return False
             for p, ifs in got.items():
-                want_props = {'org.verif.c16.A': {'Name': 'name-of-' + p}}
+                want_props = {'org.verif.c16.A': {'Name': world.names.get(p, 'name-of-' + p)}}
                 if exported[p] == 'AB':
-                    want_props['org.verif.c16.B'] = {'Count': 5}
+                    want_props['org.verif.c16.B'] = {'Count': world.counts.get(p, 5)}
                 for iname, props in want_props.items():
                     if ifs.get(iname) != props:
                         ctx.report('managed-content', 'GetManagedObjects entry %s lacks interface/readable properties: '
@@ -224,6 +228,9 @@ def apply_op(ctx, world, op, hist, case):
                        {'history': hist, 'op': list(op)}, case)
             return False
         world.exported[path] = objkind
+        world.objs[path] = obj
+        world.names.pop(path, None)
+        world.counts.pop(path, None)
     else:
         try:
             world.conn.unexportObject(path)
@@ -231,6 +238,9 @@ def apply_op(ctx, world, op, hist, case):
             ctx.report('unexport-raised', 'unexporting %s raised %r' % (path, e), {'history': hist, 'op': list(op)}, case)
             return False
         del world.exported[path]
+        world.objs.pop(path, None)
+        world.names.pop(path, None)
+        world.counts.pop(path, None)
     sigs = [m for m in world.peer.take() if m.mtype == RM.SIGNAL]
     ctx.count('evaluations')
     ctx.count('steps')
@@ -275,6 +285,26 @@ def run_history(ctx, ops, check_every, case):
         if not apply_op(ctx, world, op, hist, case):
             return False
         if check_every or i == len(ops) - 1:
+            if not check_state(ctx, world, hist, case):
+                return False
+        # a property of an exported object changes afterwards (assigned locally, or Set remotely): what the tree reports
+        # follows the object, not what it looked like when it was exported
+        if world.objs and (i + len(ops)) % 3 == 0:
+            p_ = sorted(world.objs)[(i * 7 + len(hist)) % len(world.objs)]
+            new_name = 'renamed-%d-of-%s' % (i, p_)
+            if i % 2:
+                world.objs[p_].name = new_name
+            else:
+                world.objs[p_].name = 'about-to-be-set'      # Name is read-only remotely: change Count/Name locally, and
+                world.objs[p_].name = new_name                # twice in a row
+            if world.exported[p_] == 'AB':
+                world.call(p_, 'Set', 'org.freedesktop.DBus.Properties', 'ssv',
+                           ['org.verif.c16.B', 'Count', RV('i', 40 + i)])
+                world.counts[p_] = 40 + i
+            world.names[p_] = new_name
+            world.peer.take()
+            hist.append(['property-change', p_, new_name])
+            ctx.count('property_changes_after_export')
             if not check_state(ctx, world, hist, case):
                 return False
     ctx.distinct('nontrivial_cases', tuple(tuple(o) for o in ops))
